@@ -557,7 +557,10 @@ func (c *c01ctx) checkHandWritten() {
 			c.checkChoice(fn, cf, n, enc, paths)
 			continue
 		}
-		type finding struct{ elem, msg string; pos token.Pos }
+		type finding struct {
+			elem, msg string
+			pos       token.Pos
+		}
 		found := map[string]finding{}
 		helper := ""
 		report := func(elem string, pos token.Pos, f string, a ...any) {
